@@ -36,7 +36,7 @@ def main(argv=None):
     if args.show is not None:
         from sim import build, observe
         build.activate()
-        case = mod.generate(kernel.H(seed, mod.PROPERTY, args.show), args.tier)
+        case = kernel.gen_case(mod, seed, args.show, args.tier)
         print(observe.jdump(case)[:20000])
         out = kernel.safe_execute(mod, case)
         print(observe.jdump(out)[:20000])
